@@ -59,6 +59,9 @@ type caseD struct {
 	Failing []string `json:"failing"` // hex addresses that deliver no proposal
 	// which listing is also given to the model (harness bookkeeping)
 	ModelListing int `json:"model_listing"`
+	// a history: the calls, in order, made on ONE long-lived selector (each with its own point, previous block,
+	// suffrage listing = Nodes, failing set); the other fields of the outer case are unused then
+	Hist []caseD `json:"hist,omitempty"`
 }
 
 var keys []base.Publickey
@@ -128,23 +131,26 @@ type flowObs struct {
 	Err   string
 }
 
-func runFlow(c caseD, listing []nodeD, pwait time.Duration) (o flowObs) {
-	defer func() {
-		if r := recover(); r != nil {
-			o.Err = fmt.Sprintf("panic: %v", r)
-		}
-	}()
-	failing := map[string]bool{}
-	for _, f := range c.Failing {
-		failing[f] = true
-	}
-	pl := &pool{failing: failing}
-	var mu sync.Mutex
+// liveSel is one BaseProposalSelector that can serve many Select calls (a node keeps one for its whole life);
+// the stubs read the inputs of the call in progress.
+type liveSel struct {
+	ps      *isaac.BaseProposalSelector
+	args    *isaac.BaseProposalSelectorArgs
+	mu      sync.Mutex
+	listing []nodeD  // what GetNodesFunc returns for the call in progress
+	sel     []selCall // ProposerSelectFunc calls of the call in progress
+	asks    []int64   // heights GetNodesFunc was asked for
+}
+
+func newLiveSel() *liveSel {
+	ls := &liveSel{}
 	real := isaac.NewBlockBasedProposerSelector()
 	args := isaac.NewBaseProposalSelectorArgs()
-	args.Pool = pl
-	args.GetNodesFunc = func(base.Height) ([]base.Node, bool, error) {
-		return mkNodes(listing), true, nil // fresh slice: getNodes sorts in place
+	args.GetNodesFunc = func(h base.Height) ([]base.Node, bool, error) {
+		ls.mu.Lock()
+		defer ls.mu.Unlock()
+		ls.asks = append(ls.asks, h.Int64())
+		return mkNodes(ls.listing), true, nil // fresh slice: getNodes sorts in place
 	}
 	args.ProposerSelectFunc = func(ctx context.Context, pt base.Point, nodes []base.Node, prev util.Hash) (base.Node, error) {
 		n, err := real.Select(ctx, pt, nodes, prev)
@@ -158,22 +164,46 @@ func runFlow(c caseD, listing []nodeD, pwait time.Duration) (o flowObs) {
 			sc.Out = hexAddr(n.Address())
 			sc.Key = n.Publickey().String()
 		}
-		mu.Lock()
-		o.Sel = append(o.Sel, sc)
-		mu.Unlock()
+		ls.mu.Lock()
+		ls.sel = append(ls.sel, sc)
+		ls.mu.Unlock()
 		return n, err
 	}
 	args.RequestFunc = func(context.Context, base.Point, base.Node, util.Hash) (base.ProposalSignFact, bool, error) {
 		return nil, false, errors.Errorf("no answer")
 	}
 	args.RequestProposalInterval = time.Millisecond
-	args.MinProposerWait = pwait
 	args.TimeoutRequest = func() time.Duration { return time.Second }
 	// local: a node that is not the proposer asked (never in the failing set; not in the suffrage)
 	local := base.NewBaseLocalNode(base.DummyNodeHint, localKey, rawAddr{s: "\x00local-outside-suffrage"})
-	ps := isaac.NewBaseProposalSelector(local, args)
+	ls.args = args
+	ls.ps = isaac.NewBaseProposalSelector(local, args)
+	return ls
+}
+
+// one Select call on this selector
+func (ls *liveSel) call(c caseD, listing []nodeD, pwait time.Duration) (o flowObs) {
+	defer func() {
+		if r := recover(); r != nil {
+			o.Err = fmt.Sprintf("panic: %v", r)
+		}
+	}()
+	failing := map[string]bool{}
+	for _, f := range c.Failing {
+		failing[f] = true
+	}
+	pl := &pool{failing: failing}
+	ls.mu.Lock()
+	ls.listing = listing
+	ls.sel = nil
+	ls.mu.Unlock()
+	ls.args.Pool = pl
+	ls.args.MinProposerWait = pwait
 	prev, _ := hex.DecodeString(c.Prev)
-	pr, err := ps.Select(context.Background(), base.RawPoint(c.Height, c.Round), valuehash.NewBytes(prev), 0)
+	pr, err := ls.ps.Select(context.Background(), base.RawPoint(c.Height, c.Round), valuehash.NewBytes(prev), 0)
+	ls.mu.Lock()
+	o.Sel = append([]selCall{}, ls.sel...)
+	ls.mu.Unlock()
 	pl.Lock()
 	o.Asked = append([]string{}, pl.asked...)
 	pl.Unlock()
@@ -183,6 +213,10 @@ func runFlow(c caseD, listing []nodeD, pwait time.Duration) (o flowObs) {
 	}
 	o.Final = hexAddr(pr.ProposalFact().Proposer())
 	return o
+}
+
+func runFlow(c caseD, listing []nodeD, pwait time.Duration) flowObs {
+	return newLiveSel().call(c, listing, pwait)
 }
 
 var localKey base.Privatekey
@@ -213,7 +247,10 @@ func refFirstFailing(c caseD) bool {
 	return false
 }
 
-func runFlowRetry(c caseD, listing []nodeD) flowObs {
+func runFlowRetry(c caseD, listing []nodeD) flowObs { return runFlowRetryOn(nil, c, listing) }
+
+// ls == nil: a fresh selector for every attempt; otherwise all attempts are further calls on ls
+func runFlowRetryOn(ls *liveSel, c caseD, listing []nodeD) flowObs {
 	// a live first proposer answers at the selector's first tick (33 ms): give that phase a long deadline so
 	// that scheduling delays can never make a live node look dead; a failing first proposer costs the whole
 	// deadline, so keep it short there and retry with a longer one when the run did not get through.
@@ -227,7 +264,11 @@ func runFlowRetry(c caseD, listing []nodeD) flowObs {
 	}
 	var o flowObs
 	for try := 0; try < 4; try++ {
-		o = runFlow(c, listing, pw)
+		if ls == nil {
+			o = runFlow(c, listing, pw)
+		} else {
+			o = ls.call(c, listing, pw)
+		}
 		if o.Err == "" {
 			// a live node that was passed over: either a scheduling delay made it miss the short deadline
 			// or the selector really skipped it; decide with the long deadline
@@ -519,6 +560,164 @@ func evalFlow(c caseD, res *vh.Result, slot *modelCase, mu *sync.Mutex, addModel
 	res.Sample(map[string]any{"n": len(c.Nodes), "height": c.Height, "round": c.Round, "failing": len(c.Failing), "selected": outs(obs[0].Sel), "final": obs[0].Final})
 }
 
+// a history of calls on one long-lived selector: every call must behave like a fresh selector given the same
+// inputs (the property's "for the same stage point, previous block and suffrage ... the same proposer"), and
+// its proposer must be a member of the suffrage GetNodesFunc returned for THIS call.
+func evalHist(h caseD, res *vh.Result, slots []modelCase, mu *sync.Mutex, addModel bool) {
+	ls := newLiveSel()
+	live := make([]flowObs, len(h.Hist))
+	fresh := make([]flowObs, len(h.Hist))
+	for k, c := range h.Hist {
+		live[k] = runFlowRetryOn(ls, c, c.Nodes)
+		fresh[k] = runFlowRetry(c, c.Nodes)
+	}
+	mu.Lock()
+	defer mu.Unlock()
+	res.Count(fmt.Sprintf("hist-%v", h.Hist), true)
+	res.Dist("hist_calls_" + bucket(len(h.Hist)))
+	for k, c := range h.Hist {
+		o, f := live[k], fresh[k]
+		what := fmt.Sprintf("call %d of %d on one selector (height %d round %d, %d nodes)", k, len(h.Hist), c.Height, c.Round, len(c.Nodes))
+		if k > 0 {
+			p := h.Hist[k-1]
+			switch {
+			case p.Height == c.Height && !sameSet(p.Nodes, c.Nodes):
+				res.Dist("hist_same_height_suffrage_changed")
+			case p.Height == c.Height:
+				res.Dist("hist_same_height_same_suffrage")
+			default:
+				res.Dist("hist_height_changed")
+			}
+		}
+		if o.Err != "" || f.Err != "" {
+			res.Fail("no-proposer-reached", fmt.Sprintf("%s: no proposal of a live suffrage node: long-lived %q fresh %q", what, o.Err, f.Err), h)
+			return
+		}
+		for i, sc := range o.Sel {
+			d, ok := findNode(c.Nodes, sc.Out)
+			if !ok || keys[d.Key].String() != sc.Key {
+				res.Fail("not-member", fmt.Sprintf("%s: selection %d = %q is not a node of the suffrage returned for this call", what, i, sc.Out), h)
+				return
+			}
+		}
+		if _, ok := findNode(c.Nodes, o.Final); !ok {
+			res.Fail("not-member", fmt.Sprintf("%s: proposer %q of the returned proposal is not in the suffrage returned for this call", what, o.Final), h)
+			return
+		}
+		if o.Final != f.Final || !sameSel(o.Sel, f.Sel) {
+			res.Fail("history-dependent", fmt.Sprintf("%s: long-lived selector selects %v -> %q, a fresh selector on the same inputs %v -> %q", what, outs(o.Sel), o.Final, outs(f.Sel), f.Final), h)
+			return
+		}
+		if addModel && k < len(slots) {
+			var asked []nodeD
+			if len(c.Nodes) == 1 {
+				d, _ := findNode(c.Nodes, o.Final)
+				asked = []nodeD{d}
+			} else {
+				for _, sc := range o.Sel {
+					d, _ := findNode(c.Nodes, sc.Out)
+					asked = append(asked, d)
+				}
+			}
+			slots[k] = modelCase{coqCase(c, c.Nodes, asked), map[string]any{"history_call": k, "case": c, "selected": outs(o.Sel), "final": o.Final}}
+		}
+	}
+}
+
+func sameSet(a, b []nodeD) bool {
+	if len(a) != len(b) {
+		return false
+	}
+	for _, x := range a {
+		if _, ok := findNode(b, x.Addr); !ok {
+			return false
+		}
+	}
+	return true
+}
+
+// history generator: a pool of distinct nodes, the suffrage is a changing subset of it
+func genHist(r *vh.Rand, small bool) caseD {
+	n0 := r.Range(2, 9)
+	if !small && r.Chance(1, 4) {
+		n0 = r.Range(10, 30)
+	}
+	poolN := n0 + r.Range(3, 10)
+	pl := genNodes(r, poolN)
+	in := make([]bool, poolN)
+	for _, j := range r.Perm(poolN)[:n0] {
+		in[j] = true
+	}
+	current := func() []nodeD {
+		var ds []nodeD
+		for j, d := range pl {
+			if in[j] {
+				ds = append(ds, d)
+			}
+		}
+		return ds
+	}
+	height, round := genPoint(r, false)
+	if height > 1<<62 {
+		height -= 8 // room for a few height steps
+	}
+	used := []int64{height}
+	k := r.Range(2, 6)
+	var h caseD
+	h.Flow = true
+	for i := 0; i < k; i++ {
+		if i > 0 {
+			// the suffrage GetNodesFunc returns changes between calls (the node learns of an update late)
+			if r.Chance(3, 4) {
+				for m := r.Range(1, 3); m > 0; m-- {
+					j := r.Intn(poolN)
+					switch r.Intn(3) {
+					case 0: // replace a member
+						if in[j] {
+							for _, q := range r.Perm(poolN) {
+								if !in[q] {
+									in[j], in[q] = false, true
+									break
+								}
+							}
+						}
+					case 1:
+						in[j] = true
+					default:
+						if len(current()) > 2 || r.Chance(1, 5) && len(current()) > 1 {
+							in[j] = false
+						}
+					}
+				}
+			}
+			switch x := r.Intn(20); {
+			case x < 14: // a later round of the same height
+				round += uint64(r.Range(1, 3))
+			case x < 17:
+				height++
+				round = uint64(r.Intn(3))
+				used = append(used, height)
+			default: // back to a height served before
+				height = used[r.Intn(len(used))]
+				round = uint64(r.Intn(5))
+			}
+		}
+		cur := current()
+		c := caseD{Flow: true, Height: height, Round: round, Prev: genPrev(r, false), Nodes: permute(cur, r.Perm(len(cur)))}
+		if len(cur) >= 2 && r.Chance(1, 6) {
+			nf := r.Range(1, len(cur)-1)
+			if nf > 4 {
+				nf = 4
+			}
+			for _, j := range r.Perm(len(cur))[:nf] {
+				c.Failing = append(c.Failing, cur[j].Addr)
+			}
+		}
+		h.Hist = append(h.Hist, c)
+	}
+	return h
+}
+
 func outs(s []selCall) []string {
 	o := make([]string, len(s))
 	for i := range s {
@@ -619,7 +818,9 @@ func main() {
 		if err := vh.ReadReplay(o.Replay, &c); err != nil {
 			panic(err)
 		}
-		if c.Flow {
+		if len(c.Hist) > 0 {
+			// handled with the histories below
+		} else if c.Flow {
 			flows = append(flows, c)
 		} else {
 			evalBare(c, res, cases, true)
@@ -672,6 +873,40 @@ func main() {
 		}
 	}
 
+	// ---- histories on one long-lived selector
+	var hists []caseD
+	hists = append(hists, histCorpus()...)
+	if o.Replay != "" {
+		var c caseD
+		if err := vh.ReadReplay(o.Replay, &c); err == nil && len(c.Hist) > 0 {
+			hists = append(hists, c)
+		}
+	}
+	nhist := o.Pick(250, 4000)
+	modelHist := o.Pick(80, 900) + len(hists)
+	for i := 0; i < nhist; i++ {
+		hists = append(hists, genHist(r, i < modelHist))
+	}
+	hslots := make([][]modelCase, len(hists))
+	for i := range hists {
+		hslots[i] = make([]modelCase, len(hists[i].Hist))
+		wg.Add(1)
+		sem <- struct{}{}
+		go func(i int) {
+			defer wg.Done()
+			defer func() { <-sem }()
+			evalHist(hists[i], res, hslots[i], &mu, i < modelHist)
+		}(i)
+	}
+	wg.Wait()
+	for _, sl := range hslots {
+		for _, m := range sl {
+			if m.term != "" {
+				cases.Add(m.term, m.desc)
+			}
+		}
+	}
+
 	nbare := o.Pick(1500, 40000)
 	modelBare := o.Pick(300, 4000)
 	for i := 0; i < nbare; i++ {
@@ -689,6 +924,30 @@ func main() {
 }
 
 func hx(s string) string { return hex.EncodeToString([]byte(s)) }
+
+// fixed histories: same height, later round, one member replaced / added / removed in between
+func histCorpus() []caseD {
+	mk := func(names ...string) []nodeD {
+		ds := make([]nodeD, len(names))
+		for i, n := range names {
+			ds[i] = nodeD{Addr: hx(n), Raw: true, Key: int(n[len(n)-1]) % 64}
+		}
+		return ds
+	}
+	p := strings.Repeat("ab", 32)
+	call := func(h int64, rd uint64, names ...string) caseD {
+		return caseD{Flow: true, Height: h, Round: rd, Prev: p, Nodes: mk(names...)}
+	}
+	var out []caseD
+	for rd := uint64(0); rd < 4; rd++ {
+		out = append(out,
+			caseD{Flow: true, Hist: []caseD{call(33, rd, "n0", "n1", "n2"), call(33, rd+1, "n3", "n1", "n2"), call(33, rd+2, "n3", "n1", "n2", "n4")}},
+			caseD{Flow: true, Hist: []caseD{call(33, rd, "n0", "n1", "n2", "n3"), call(33, rd+1, "n1", "n3"), call(34, 0, "n1", "n3"), call(33, rd+2, "n5", "n6", "n7")}},
+			caseD{Flow: true, Hist: []caseD{call(7, rd, "a", "b"), call(7, rd+1, "c", "d"), call(7, rd+2, "e"), call(7, rd+3, "f", "g", "h")}},
+		)
+	}
+	return out
+}
 
 func corpus() []caseD {
 	mk := func(names ...string) []nodeD {
